@@ -303,6 +303,64 @@ func c20(w *core.World, r *core.Report) {
 
 	r.Rule("R20.6", "bidirectional builder: probe on first chunk only, memo recorded and looked up under one key, DEL prepended under replace", 3)
 	ruleBisyncRdbPolicy(w, r)
+
+	r.Rule("R20.7", "the 'ignored key' memo lives until the next key begins: it is cleared only under FirstBin", 1)
+	if f != nil {
+		n, bad := 0, ""
+		var pos token.Pos = f.Pos()
+		for _, in := range core.Instrs(f) {
+			st, ok := in.(*ssa.Store)
+			if !ok {
+				continue
+			}
+			fa, ok := st.Addr.(*ssa.FieldAddr)
+			if !ok || core.FieldName(fa) != "ignoredKey" {
+				continue
+			}
+			n++
+			first := false
+			for _, fct := range core.FactsAt(st.Block()) {
+				if c, isCall := core.Unwrap(fct.Cond).(*ssa.Call); isCall && fct.Val && strings.HasSuffix(core.ResolveCall(c).Name, "BinEntry).FirstBin") {
+					first = true
+				}
+			}
+			if !first {
+				bad, pos = "the memo of the ignored key is written while a continuation chunk is handled: a value split into three or more chunks has its remaining chunks merged into the existing key", st.Pos()
+			}
+		}
+		r.Check(bad == "" && n >= 2, "Replay/memo-lifetime", pos, "%s", bad)
+	}
+
+	r.Rule("R20.8", "bidirectional replay: a BUSYKEY reply to RESTORE is tolerated only under the ignore policy", 1)
+	if g := fn(w, r, "(*syncer.RedisOutput).validateBisyncRdbExecReplies"); g != nil {
+		n, okAll := 0, true
+		var pos token.Pos = g.Pos()
+		for _, b := range g.Blocks {
+			busy, ignore := false, false
+			for _, fct := range core.FactsAt(b) {
+				if c, isCall := core.Unwrap(fct.Cond).(*ssa.Call); isCall && fct.Val && core.ResolveCall(c).Name == "syncer.isRestoreBusyKeyError" {
+					busy = true
+				}
+				if cmp, isCmp := core.AsCmp(fct.Cond, fct.Val); isCmp && cmp.Op == token.EQL {
+					x, y := core.Unwrap(cmp.X), core.Unwrap(cmp.Y)
+					if s, isS := core.ConstString(x); isS && s == "ignore" {
+						x, y = y, x
+					}
+					if s, isS := core.ConstString(y); isS && s == "ignore" && core.IsFieldLoad(x, "", "KeyExists") {
+						ignore = true
+					}
+				}
+			}
+			if !busy {
+				continue
+			}
+			n++
+			if !ignore {
+				okAll, pos = false, b.Instrs[0].Pos()
+			}
+		}
+		r.Check(okAll && n >= 1, "validateBisyncRdbExecReplies/busykey-only-under-ignore", pos, "a RESTORE that answers BUSYKEY means the key appeared after the existence probe; swallowing that reply is the ignore policy. Under 'error' it must fail the replay (under 'replace' it cannot occur): tolerated in %d block(s), all under KeyExists == \"ignore\": %v", n, okAll)
+	}
 }
 
 func pathHasSecondRestore(ev []rpEvent) bool {
